@@ -96,13 +96,13 @@ pub fn run(ctx: &Ctx) -> Result<Evidence, String> {
     docs.extend(gen::curated_docs().into_iter().filter(|d| d.node_count() < 300));
     let mut cfg = gen::DocCfg::default();
     cfg.keys = ["a", "b", "0", "1", "a/b", "~", "x y", "'", "\\", ""].iter().map(|s| s.to_string()).collect();
-    for _ in 0..ctx.tier.pick(2500, 60000) {
+    for _ in 0..ctx.tier.pick(2500, 1_500_000) {
         docs.push(gen::random_doc(&mut rng, &cfg));
     }
     // long member names drawn from a hostile alphabet: every adjacency of brackets, quotes,
     // backslashes, pointer characters, controls and multi-byte characters, at every offset
     let alphabet: Vec<char> = "][\\'\"/~ .a0\u{e9}\u{1f600}\t\n\u{1}$@*-_%".chars().collect();
-    for _ in 0..ctx.tier.pick(60, 1500) {
+    for _ in 0..ctx.tier.pick(60, 6000) {
         let mut members: Vec<(String, J)> = vec![];
         for k in 0..30 {
             let len = 1 + rng.below(44) as usize;
